@@ -56,6 +56,12 @@ theorem block_le_256 (u0 u1 u2 u3 : Nat) (h0 : u0 < B) (h1 : u1 < B) (h2 : u2 < 
   omega
 example : block (B - 1) (B - 1) (B - 1) (B - 1) = 256 := by decide
 
+/-- popcount.c:96-99, the per-limb step of the tail loop: for every limb u < 2^64 the value added to x has eight byte
+    fields and field i is the bit count of byte i of u (comment "8 0-8"); `(p0 >> 4) + p0` neither wraps nor carries
+    into a neighbouring byte before the mask. -/
+theorem tailLimb_fields (u : Nat) (hu : u < B) : tailLimb u = mapB pc8 8 u := tailLimb_bytes u hu
+example : tailLimb 0xffff00000f0100f3 = 0x0808000004010006 := by decide
+
 /-! popcount.c:79 masks BEFORE adding: a full block contributes 256, which does not fit the byte field.  The variant
     `x = (x >> 32) + x; … x & 0xff` (what the tail at :112-114 does, where at most 3 limbs = 192 bits arrive) is WRONG
     for the block: on four all-ones limbs it yields 0. -/
